@@ -19,13 +19,13 @@ def F(n, d=1):
 
 
 # ------------------------------------------------------------------------------------------------ structures
-def struct(id, comps, pars, links, dt, stock, pops=("p0",), transfers=(), popvals=None, durs=None, jinit=None, glob=True):
+def struct(id, comps, pars, links, dt, stock, pops=("p0",), transfers=(), popvals=None, durs=None, jinit=None, glob=True, characs=()):
     """comps: [(name, kind[, group])]; pars: [(name, units, T, dom[, timed])]; links: [(src, dst, par|'>')]
     stock: {comp: [values] or [[rows]...] (timed; rows must match)}; transfers: [(name, src_pop, dst_pop, units, dom)]
     popvals: {pop: {par: dom}} overrides; durs: {pop: {group: Fraction}} durations (timed parameter value, constant)
     """
     return dict(id=id, comps=comps, pars=pars, links=links, dt=Fr(dt), stock=stock, pops=list(pops), transfers=list(transfers),
-                popvals=popvals or {}, durs=durs or {}, jinit=jinit or {}, glob=glob)
+                popvals=popvals or {}, durs=durs or {}, jinit=jinit or {}, glob=glob, characs=list(characs))
 
 
 def nrows(D, dt):
@@ -55,14 +55,16 @@ def expand(s, mode="r1"):
             dom = s["popvals"].get(pop, {}).get(name, dom)
             if name in timedpars and s["durs"].get(pop, {}).get(name) is not None:
                 dom = [s["durs"][pop][name]]
-            pars.append(dict(name="%s/%s" % (pop, name), pop=pop, base=name, units=units, T=None if T is None else Fr(T), dom=[Fr(x) for x in dom], timed=name in timedpars))
+            extra = p[5] if len(p) > 5 else {}
+            pars.append(dict(name="%s/%s" % (pop, name), pop=pop, base=name, units=units, T=None if T is None else Fr(T), dom=[Fr(x) for x in dom], timed=name in timedpars,
+                             fn=extra.get("fn"), lim=extra.get("lim", (None, None))))
         for (a, b, par) in s["links"]:
             flush = par in timedpars
             timed = (not flush) and groups[a] is not None and groups[a] == groups[b]
             links.append(dict(src="%s/%s" % (pop, a), dst="%s/%s" % (pop, b), par=">" if par == ">" else "%s/%s" % (pop, par), timed=timed, flush=flush))
     for (tname, a, b, units, dom) in s["transfers"]:
         pname = "%s/%s_%s_to_%s" % (a, tname, a, b)
-        pars.append(dict(name=pname, pop=a, base="%s_%s_to_%s" % (tname, a, b), units=units, T=Fr(1), dom=[Fr(x) for x in dom], timed=False, transfer=(tname, a, b)))
+        pars.append(dict(name=pname, pop=a, base="%s_%s_to_%s" % (tname, a, b), units=units, T=Fr(1), dom=[Fr(x) for x in dom], timed=False, transfer=(tname, a, b), fn=None, lim=(None, None)))
         for c in s["comps"]:
             if c[1] in ("normal", "timed"):
                 links.append(dict(src="%s/%s" % (a, c[0]), dst="%s/%s" % (b, c[0]), par=pname, timed=groups[c[0]] is not None, flush=False))
@@ -153,11 +155,33 @@ def tla_world(w):
     f.append("grid |-> %s" % q("{%s}" % ",".join(q(rat(x) for x in row) for row in w["grid"][c["name"]]) for c in comps))
     f.append("jorder |-> %s" % q(str(cidx[j]) for j in w["jorder"]))
     f.append("glob |-> %s" % b(w["struct"].get("glob", True)))
+    chars = w["struct"].get("characs", [])
+    chidx = {c[0]: i + 1 for i, c in enumerate(chars)}
+    pop0 = w["pops"][0]
+
+    def expr(e):
+        k = e[0]
+        if k == "num":
+            return '<<"num", %s>>' % rat(e[1])
+        if k == "par":
+            return '<<"par", %d>>' % pidx["%s/%s" % (pop0, e[1])]
+        if k == "comp":
+            return '<<"comp", %d>>' % cidx["%s/%s" % (pop0, e[1])]
+        if k == "char":
+            return '<<"char", %d>>' % chidx[e[1]]
+        if k == "t":
+            return '<<"t">>'
+        return '<<"%s", %s, %s>>' % (k, expr(e[1]), expr(e[2]))
+
+    f.append("pfn |-> %s" % q((expr(p["fn"]) if p.get("fn") else '<<"env">>') for p in pars))
+    lim = lambda x: "NoLim" if x is None else rat(x)
+    f.append("plim |-> %s" % q("<<%s,%s>>" % (lim(p.get("lim", (None, None))[0]), lim(p.get("lim", (None, None))[1])) for p in pars))
+    f.append("chars |-> %s" % q("[parts |-> {%s}, denom |-> %d]" % (",".join(str(cidx["%s/%s" % (pop0, x)]) for x in c[1]), chidx.get(c[2], 0) if c[2] else 0) for c in chars))
     return "[ " + ",\n  ".join(f) + " ]"
 
 
 def worlds_module(worlds):
-    return "---- MODULE Worlds ----\nEXTENDS Rat\nWorlds == <<\n" + ",\n".join(tla_world(w) for w in worlds) + "\n>>\n====\n"
+    return "---- MODULE Worlds ----\nEXTENDS Rat\nNoLim == <<0, 0>>\nWorlds == <<\n" + ",\n".join(tla_world(w) for w in worlds) + "\n>>\n====\n"
 
 
 # ------------------------------------------------------------------------------------------------ catalogue
@@ -248,6 +272,19 @@ def catalogue(tier="quick", mode="r1"):
                     [("vac", "probability", 1, [0, 3]), ("dur", "duration", F(1, 12), [24], True), ("mort", "rate", 1, [0, 2])],
                     [("a", "v", "vac"), ("v", "a", "dur"), ("v", "d", "mort")],
                     F(1, 12), {"a": [0, 100], "v": [[1, 2, 3, 4, 5, 6], [0, 0, 0, 0, 0, 60]], "d": [0]}))
+    # 12c parameters computed by functions of the same-step state (compartments, characteristics with a denominator, other
+    #     parameters - chain and diamond -, time), with limits that bind for some states; dependencies are clipped first
+    S.append(struct("fnsir", [("sus", "normal"), ("inf", "normal"), ("rcv", "normal"), ("dead", "sink")],
+                    [("beta", "probability", 1, [F(1, 2), 2, 6]),
+                     ("foi", "probability", 1, [0], False, {"fn": ("mul", ("par", "beta"), ("char", "prev")), "lim": (0, F(3, 2))}),
+                     ("foi2", "probability", 1, [0], False, {"fn": ("max", ("sub", ("par", "foi"), ("num", F(1, 10))), ("num", 0))}),
+                     ("both", "rate", 1, [0], False, {"fn": ("add", ("par", "foi"), ("par", "foi2")), "lim": (F(1, 4), 2)}),
+                     ("rec", "rate", F(1, 12), [F(1, 24), F(1, 2)]),
+                     ("wane", "duration", 1, [F(1, 8), 4]),
+                     ("mort", "rate", 1, [0], False, {"fn": ("div", ("comp", "inf"), ("max", ("char", "alive"), ("num", 1)))})],
+                    [("sus", "inf", "foi"), ("sus", "rcv", "foi2"), ("inf", "rcv", "rec"), ("inf", "sus", "both"), ("rcv", "sus", "wane"), ("sus", "dead", "mort"), ("inf", "dead", "mort"), ("rcv", "dead", "mort")],
+                    F(1, 4), {"sus": [0, 64], "inf": [0, 16, 32], "rcv": [0, 32], "dead": [0]},
+                    characs=[("alive", ["sus", "inf", "rcv"], None), ("prev", ["inf"], "alive")], glob=False))
     # 13 residual junction inside a duration group (row-wise residual), proportions summing below and above 1
     S.append(struct("tresj", [("a", "normal"), ("v", "timed", "dur"), ("k", "resjunction", "dur"), ("w", "timed", "dur"), ("x", "timed", "dur"), ("d", "sink")],
                     [("vac", "probability", 1, [0, 2]), ("dur", "duration", 1, [F(3, 4)], True), ("go", "probability", 1, [0, 1, 8]),
@@ -354,12 +391,31 @@ def make_framework(w, extra_pars=None, characs=None):
     crow = [["Code Name", "Display Name", "Components", "Denominator", "Default Value", "Setup Weight", "Databook Page"]]
     for ch in characs or []:
         crow.append(list(ch))
+    for ch in s.get("characs", []):
+        crow.append([ch[0], "Ch " + ch[0], ", ".join(ch[1]), ch[2], None, 0, None])
     sheet("Characteristics", crow)
     rows = [["Code Name", "Display Name", "Format", "Timescale", "Default Value", "Minimum Value", "Maximum Value", "Function", "Databook Page", "Timed"]]
+    def render(e):
+        k = e[0]
+        if k == "num":
+            v = Fr(e[1])
+            return repr(float(v)) if v.denominator != 1 else str(v.numerator)
+        if k in ("par", "comp", "char"):
+            return e[1]
+        if k == "t":
+            return "t"
+        if k in ("min", "max"):
+            return "%s(%s, %s)" % (k, render(e[1]), render(e[2]))
+        return "(%s %s %s)" % (render(e[1]), {"add": "+", "sub": "-", "mul": "*", "div": "/"}[k], render(e[2]))
+
     for p in s["pars"]:
         n, units, T = p[0], p[1], p[2]
         timed = len(p) > 4 and p[4]
-        rows.append([n, "P " + n, units, None if T is None else float(Fr(T)), 1, None, None, None, "pa", "y" if timed else "n"])
+        extra = p[5] if len(p) > 5 else {}
+        lo, hi = extra.get("lim", (None, None))
+        fn = extra.get("fn")
+        rows.append([n, "P " + n, units, None if T is None else float(Fr(T)), None if fn else 1, None if lo is None else float(Fr(lo)), None if hi is None else float(Fr(hi)),
+                     render(fn) if fn else None, None if fn else "pa", "y" if timed else "n"])
     for p in extra_pars or []:
         rows.append(list(p))
     sheet("Parameters", rows)
@@ -405,7 +461,7 @@ def build_parset(w, pv_by_step, tvec):
             tr.ts[(a, b)] = ts
     ps = at.ParameterSet(Fw, D)
     for i, p in enumerate(w["pars"]):
-        if not p.get("transfer"):
+        if not p.get("transfer") and not p.get("fn"):
             ts = ps.pars[p["base"]].ts[p["pop"]]
             if K == 1 or p["timed"]:
                 ts.t = []
